@@ -4,19 +4,23 @@ import json, glob, os, re
 V = os.path.dirname(os.path.dirname(os.path.abspath(__file__)))
 miss = json.load(open(os.path.join(V, "seeded", "FIRST_MISSES.json")))
 rows = []
+stats = {}
 for d in sorted(glob.glob(os.path.join(V, "seeded", "C*"))):
     m = json.load(open(os.path.join(d, "meta.json")))
     sid = os.path.basename(d)
     notes = open(os.path.join(d, "NOTES.md")).read() if os.path.exists(os.path.join(d, "NOTES.md")) else ""
     mm = re.search(r"\*{0,2}Change\*{0,2}[^\n]*", notes)
     what = re.sub(r"\s+", " ", (mm.group(0) if mm else m.get("needs_to_manifest", "")))[:230].replace("|", "/")
-    caught = [p for p, v in m["checks_run"].items() if v == "caught"]
-    rows.append((sid, m["breaks_property"], what, ", ".join(caught), miss.get(sid, "")))
+    caught = [p for p, v in m["checks_run"].items() if v == "caught"] + [p + " (thorough tier only)" for p, v in m["checks_run"].items() if v.startswith("caught (thorough")]
+    prim = m["checks_run"].get(m["breaks_property"], "missed")
+    kind = "primary-quick" if prim == "caught" else ("primary-thorough" if prim.startswith("caught") else ("other-check" if caught else "none"))
+    stats[kind] = stats.get(kind, 0) + 1
+    rows.append((sid, m["breaks_property"], what, ", ".join(caught) if caught else "**none**", miss.get(sid, "")))
 nmiss = sum(1 for r in rows if r[4])
 out = ["## 8. Seeded changes (independent sub-agents, property text only) and which checks catch them", "",
        "Rounds of sub-agents were each given *only* the text of one property and a scratch worktree (nothing from `/verif`) and asked for a change that breaks the property, compiles, passes the 66 tests and needs something specific to manifest (later rounds were also told which ideas had been used already, so that they differ). Each change was confirmed independently (`tools/seedverify.py`: existing suite passes with the patch, demonstration fails with it and passes without it) and is kept under `seeded/<id>/` (`patch.diff`, demonstration, `NOTES.md`, `meta.json`). `tools/seedrun.py <patch> <props…>` applies a patch to `/repo`, runs the quick checks with evidence redirected, and always restores `/repo`.", "",
-       "All %d stored changes are caught by the quick check of the property they target. %d were **missed at first**; each miss led to a strengthening of the monitor (never to a loosening), listed in the last column. `meta.json` records the result of the final run." % (len(rows), nmiss), "",
-       "| seed | property | change (from the author's notes) | caught by (quick) | missed at first → what was added |", "|---|---|---|---|---|"]
+       "Of the %d stored changes, %d are caught by the quick check of the property they were written against, %d only by its thorough tier (the trigger needs gigabytes of data), %d by the quick check of another property (the one that owns the broken layer, e.g. C16 for a field-arithmetic carry reached through a C14 entry point), and %d by none (see the last column). %d were **missed at first**; each miss led to a strengthening of the monitor (never to a loosening), listed in the last column. `meta.json` records the result of the final run." % (len(rows), stats.get("primary-quick", 0), stats.get("primary-thorough", 0), stats.get("other-check", 0), stats.get("none", 0), nmiss), "",
+       "| seed | property | change (from the author's notes) | caught by | missed at first → what was added |", "|---|---|---|---|---|"]
 for r in rows:
     out.append("| %s | %s | %s | %s | %s |" % r)
 out += ["", "Hand-made mutants from §6 used while building the heavy engines (not stored): early-exit tag compare and a branch on a loaded round key in `gcm_amd64.s` (C09: taint + trace equality fire), early exit in `ConstantTimeCmp`, `MultiSelect` by direct index, scalar `Invert` through `big.Int.ModInverse`, skipping the addition for a zero window in the comb multiplication (C08: all fire), and the pre-fix state of each of D1–D18 (the checks that found them).", ""]
